@@ -993,7 +993,9 @@ impl Project {
             s.push_str(&format!("inherent {} {}\n", inh.st, inh.name));
         }
         for f in &pk.fns {
-            s.push_str(&format!("fn {} {:?} -> {:?} bound={:?}\n", f.name, f.params, f.ret, f.bound));
+            // parameter names are not observable by dependents, only their types
+            let ptys: Vec<&Ty> = f.params.iter().map(|(_, t)| t).collect();
+            s.push_str(&format!("fn {} {:?} -> {:?} bound={:?}\n", f.name, ptys, f.ret, f.bound));
         }
         s
     }
@@ -1008,9 +1010,9 @@ fn noise_str(n: u32) -> String {
     let mut s = String::new();
     for k in 0..n {
         match k % 3 {
-            0 => s.push_str(&format!("    let _n{k} = {k} + 1;\n")),
-            1 => s.push_str(&format!("    let _n{k} = ({k}, \"t\");\n")),
-            _ => s.push_str(&format!("    let _n{k} = |q: int32| q + {k};\n")),
+            0 => s.push_str(&format!("    let nz{k} = {k} + 1;\n")),
+            1 => s.push_str(&format!("    let nz{k} = ({k}, \"t\");\n")),
+            _ => s.push_str(&format!("    let nz{k} = |q: int32| q + {k};\n")),
         }
     }
     s
